@@ -19,7 +19,7 @@ variable {α : Type} [Field α] [LinearOrder α] [IsStrictOrderedRing α]
 theorem minnorm_certificate (G : Mat α) (m : Nat) (hG : SymmSquare G m) (hpsd : PosSemidef G m)
     (a : Vec α) (h : minNormCheck G a = true) :
     InSimplex a m ∧ ∀ b, InSimplex b m → qf G a ≤ qf G b := by
-  sorry
+  exact minnorm_cert G m hG hpsd a h
 
 /-- MGDA, allowance: for ANY convex combination `x = Jᵀα` and the minimum-norm point `g* = Jᵀa*` of the
     hull, `⟨j_i, x⟩ ≥ -|j_i| sqrt(|x|² - |g*|²)`; stated without square roots. (`|j_i| ≤ s`.) -/
@@ -28,7 +28,7 @@ theorem mgda_nonconflict (J : Mat α) (m n : Nat) (hJ : MatWF J m n) (a astar : 
     (hneg : dot (J.getD i []) (combine n J a) < 0) :
     dot (J.getD i []) (combine n J a) * dot (J.getD i []) (combine n J a) ≤
       dot (J.getD i []) (J.getD i []) * (qf (gram J) a - qf (gram J) astar) := by
-  sorry
+  exact mgda_nonconflict' J m n hJ a astar ha hstar i hi hneg
 
 /-- FRANK–WOLFE RATE: with `epsilon = 0` (no early stop), after `K ≥ 1` iterations the sub-optimality is
     at most `8 s² / (K + 2)`, where `s²` bounds the Gramian (`vᵀGv ≤ s² |v|²`: `s` = largest singular
@@ -37,12 +37,12 @@ theorem mgda_fw_rate (G : Mat α) (m : Nat) (hm : 0 < m) (hG : SymmSquare G m) (
     (s2 : α) (hs : ∀ v : Vec α, v.length = m → qf G v ≤ s2 * dot v v) (K : Nat) (hK : 1 ≤ K)
     (b : Vec α) (hb : InSimplex b m) :
     qf G (mgdaWeights G m (1 / (m : α)) 0 K).1 - qf G b ≤ 8 * s2 / ((K : α) + 2) := by
-  sorry
+  exact mgda_rate G m hm hG hpsd s2 hs K hK b hb
 
 /-- the abstract recurrence behind the rate -/
 theorem fw_recurrence (h : Nat → α) (C : α) (hC : 0 ≤ C)
     (hstep : ∀ k, ∀ γ : α, 0 ≤ γ → γ ≤ 1 → h (k + 1) ≤ (1 - γ) * h k + γ * γ * C / 2)
     (k : Nat) (hk : 1 ≤ k) : h k ≤ 2 * C / ((k : α) + 2) := by
-  sorry
+  exact fw_rec h C hC hstep k hk
 
 end Tjd.Props.C04
